@@ -251,8 +251,14 @@ func c26Run(dir string, seq []c26Op, h *c26Hooks) (div *c26Div, steps int, prune
 		case c26OpEnq:
 			attempts[op.Arg]++
 			data := []byte(fmt.Sprintf("item-%d#%d", op.Arg, attempts[op.Arg]))
-			if err := real.q.Enqueue(&Event{Index: op.Arg, Data: data}); err != nil {
+			// the producer reuses its buffer once the enqueue is acknowledged (a scratch-buffer
+			// producer): the queue must have taken its own copy by then
+			buf := append([]byte(nil), data...)
+			if err := real.q.Enqueue(&Event{Index: op.Arg, Data: buf}); err != nil {
 				return &c26Div{"C26:enqueue-error", fmt.Sprintf("[%s]: %v", hist(i), err)}, steps, -1
+			}
+			for bi := range buf {
+				buf[bi] = '!'
 			}
 			if op.Arg > m.highest {
 				m.stored[op.Arg] = data
